@@ -41,6 +41,9 @@ def template_table(F, rep, rule):
             if other.strip() != "None":
                 rep.bad(rule, "else-branch:" + nm, "%s: the else branch yields %r instead of None (the component would be bumped at a clean tag)" % (nm, other), f.where())
             mode = mode_of(conds) if nm in ("bump_post", "bump_dev") else "*"
+            if nm in ("bump_post", "bump_dev") and mode is None and len(ts) == 1:
+                tab[(nm, "commit", "")] = (cond, content, holes, conds); tab[(nm, "tag", "")] = (cond, content, holes, conds)
+                continue
             sub = "explicit" if (nm == "bump_pre_release_num" and "hash_int" not in content) else ("hash" if nm == "bump_pre_release_num" else "")
             tab[(nm, mode or "*", sub)] = (cond, content, holes, conds)
     return tab
@@ -94,6 +97,7 @@ def check(F, rep, tier):
         if txts == {"{{ post }}"} and uses_flag: rep.ok("R04.1", "post base is --post, else the tag's {{ post }}", nontrivial_key="opost")
         else: rep.bad("R04.1", "override-post", "override_post default is %s (or_else on the flag: %s), expected '{{ post }}'" % (sorted(txts), uses_flag), op.where())
     wildcard(F, rep)
+    remainder_only(F, rep)
     first_match(F, rep)
     flags_beat_rules(F, rep)
     hash_len(F, rep)
@@ -146,6 +150,32 @@ def wildcard(F, rep):
             rep.ok(rule, "matches(): '*' (non-empty), 'prefix/*' (starts_with and longer), exact equality", nontrivial_key="rows")
         else: rep.bad(rule, "match-rows", "BranchRule::matches lost one of its three pattern kinds (constants %s)" % consts, f.where())
 
+def remainder_only(F, rep):
+    rule = "R04.2"
+    f = F.fn("crate::cli::flow::branch_rules::BranchRule::extract_branch_number")
+    if f is None: return
+    n = 0
+    for bi, t in f.calls():
+        if not (mir.callee(t) or "").endswith("find_first_numeric_segment"): continue
+        n += 1
+        wild = any(d[0] == "call" and (d[1] or "").endswith("::ends_with") and pol is True for d, pol, dd in mir.guards_of(f, bi))
+        universal = any(d[0] == "call" and "PartialEq" in (d[1] or "") and pol is True for d, pol, dd in mir.guards_of(f, bi))
+        src = mir.trace_op(f, t[2][1], transparent=())
+        sliced = any(o.kind == "call" and "Index<std::ops::RangeFrom<usize>>" in (o.fn.blocks[o.data]["t"][1].get("full") or "") for o in src)
+        site = "%s bb%d line %s" % (f.where(), bi, f.blocks[bi]["line"])
+        star = False
+        for d, pol, dd in mir.guards_of(f, bi):
+            if d[0] == "call" and "PartialEq" in (d[1] or "") and pol is True:
+                for a in d[2][2]:
+                    c = mir.const_arg(f, a)
+                    if isinstance(c, tuple) and c[0] == "promoted":
+                        v = mir.promoted_value(F, {"k": "promoted", "of": c[1], "idx": c[2]}); c = v[1] if v is not None and v[0] == "const" else None
+                    if c == "*": star = True
+        if sliced: rep.ok(rule, "under 'prefix/*' the number is searched only after the prefix", sample=site, nontrivial_key="rem%d" % bi)
+        elif star: rep.ok(rule, "under '*' the whole name is searched", sample=site)
+        else: rep.bad(rule, "number-from-prefix", "the first numeric segment is searched in the whole branch name although the rule is not the universal '*': digits inside a 'prefix/*' rule's own prefix are taken as the number", site)
+    rep.floor(rule, "numeric-segment searches in extract_branch_number", n, 1)
+
 def first_match(F, rep):
     rule = "R04.3"
     f = F.fn("crate::cli::flow::branch_rules::BranchRules::find_rule")
@@ -171,12 +201,16 @@ def flags_beat_rules(F, rep):
         fl = [e[2] for e in st[1][1:] if not isinstance(e, str) and e[0] == "f"]
         if not fl or fl[-1] not in ("pre_release_label", "pre_release_num", "post_mode"): continue
         n += 1
-        good = False
+        good = False; others = set()
         for d, pol, dd in mir.guards_of(f, bi):
-            if d[0] == "call" and (d[1] or "").endswith("::is_none") and pol is True:
-                if any(o.fields()[-1:] == [fl[-1]] for o in mir.trace_op(f, d[2][2][0])): good = True
+            if d[0] == "call" and ((d[1] or "").endswith("::is_none") or (d[1] or "").endswith("::is_some")):
+                for o in mir.trace_op(f, d[2][2][0]):
+                    if o.fields()[-1:] == [fl[-1]] and (d[1] or "").endswith("::is_none") and pol is True: good = True
+                    elif o.fields() and o.fields()[-1] in ("pre_release_label", "pre_release_num", "post_mode") and o.fields()[-1] != fl[-1]: others.add(o.fields()[-1])
         site = "%s bb%d line %s" % (f.where(), bi, f.blocks[bi]["line"])
-        if good: rep.ok(rule, "rule value for %s is used only when the flag is absent" % fl[-1], sample=site, nontrivial_key=fl[-1])
+        if good and others:
+            rep.bad(rule, "rule-value-depends-on-other-flag:" + fl[-1], "the rule's %s is applied only when %s is (also) absent: giving one explicit flag discards the rule's value for another" % (fl[-1], sorted(others)), site)
+        elif good: rep.ok(rule, "rule value for %s is used only when the flag is absent" % fl[-1], sample=site, nontrivial_key=fl[-1])
         else: rep.bad(rule, "rule-overrides-flag:" + fl[-1], "apply_branch_rules writes %s without checking that the explicit flag is absent" % fl[-1], site)
     rep.floor(rule, "rule-derived writes in apply_branch_rules", n, 3)
     g = F.fn("crate::cli::flow::branch_rules::BranchRule::resolve_pre_release_num")
@@ -209,7 +243,7 @@ def hash_len(F, rep):
         rep.bad(rule, "unrecognised-shape:hash-len", "cannot read the length bound (%s) or the number type (%s)" % (ub, ty), f.where()); return
     digits = len(str(2 ** bits - 1)) - 1          # every number with this many digits fits
     if ub <= digits: rep.ok(rule, "every accepted hash length (<= %d) yields a number that fits %s (%d safe digits)" % (ub, ty, digits), nontrivial_key="fit")
-    else: rep.bad(rule, "hash-len-exceeds-integer", "--hash-branch-len up to %d is accepted but the number is parsed as %s, which only holds every %d-digit number: some branches fail with 'number too large'" % (ub, ty, digits), f.where())
+    else: rep.bad(rule, "hash-len-exceeds-integer:max%d>%s-digits%d" % (ub, ty, digits), "--hash-branch-len up to %d is accepted but the number is parsed as %s, which only holds every %d-digit number: some branches fail with 'number too large'" % (ub, ty, digits), f.where())
 
 def hash_purity(F, rep):
     rule = "R04.6"
